@@ -189,12 +189,12 @@ Definition ev_plan (cfg : rcfg) (e : event) : option plan :=
   | ETime s => keyable_ DT_Time (RkTime s)
   | EArray t count data => if array_api_ok t then mkplan (Some true) MArray (array_args t count data) e else None
   | EStringArray t data => if array_api_ok t then mkplan (Some true) MStringlikeArray (array_args t 0 data) e else None
-  | EMedia mt data => if negb (utf8_valid mt) then None else mkplan (Some true) MArray (array_args AT_Media (blen data) data) e
-  | ECustomBin ct data => mkplan (Some true) MArray (array_args AT_CustomBinary (blen data) data) e
-  | ECustomText ct data => mkplan (Some true) MStringlikeArray (array_args AT_CustomText 0 data) e
+  | EMedia mt data => if negb (utf8_valid mt && media_type_valid mt) then None else mkplan (Some true) MArray (array_args AT_Media (blen data) data) e
+  | ECustomBin ct data => if negb (custom_type_ok ct) then None else mkplan (Some true) MArray (array_args AT_CustomBinary (blen data) data) e
+  | ECustomText ct data => if negb (custom_type_ok ct) then None else mkplan (Some true) MStringlikeArray (array_args AT_CustomText 0 data) e
   | EArrayBegin t => if array_api_ok t then mkplan (Some true) MArrayBegin (array_args t 0 []) e else None
-  | EMediaBegin mt => if negb (utf8_valid mt) then None else mkplan (Some true) MArrayBegin (array_args AT_Media 0 []) e
-  | ECustomBegin t ct => if custom_api_ok t then mkplan (Some true) MArrayBegin (array_args t 0 []) e else None
+  | EMediaBegin mt => if negb (utf8_valid mt && media_type_valid mt) then None else mkplan (Some true) MArrayBegin (array_args AT_Media 0 []) e
+  | ECustomBegin t ct => if custom_api_ok t && custom_type_ok ct then mkplan (Some true) MArrayBegin (array_args t 0 []) e else None
   | EArrayChunk n more => mkplan None MArrayChunk
       {| a_dtype := 0; a_key := None; a_id := []; a_arrty := 0; a_count := n; a_data := []; a_version := 0; a_more := more |} e
   | EArrayData d => mkplan None MArrayData (array_args 0 0 d) e
